@@ -551,7 +551,7 @@ func main() {
 	defer os.RemoveAll(scratch)
 	_ = os.MkdirAll(filepath.Join(scratch, "tmp"), 0o755)
 	_ = os.Setenv("TMPDIR", filepath.Join(scratch, "tmp"))
-	r.Rule("fault cases (the enumerated fault): for each cache kind × 1..3 previously stored versions, a dry run counts the N backend operations of Store (and of Fetch); then every k ≤ N × fault kind {error before op k, error after op k took effect, short write (write ops), process stop after op k} is injected into Store (resp. Fetch), followed by recovery (wait > 2 heartbeat periods of virtual time, CleanEntry) and two fault-free Fetches by fresh clients. " +
+	r.Rule("fault cases (the enumerated fault): for each cache kind × 1..3 previously stored versions, a dry run counts the N backend operations of Store (and of Fetch); then every k ≤ N × fault kind {error before op k, 'no such file' before op k, error after op k took effect, short write (write ops), process stop after op k} is injected into Store (resp. Fetch), followed by recovery (wait > 2 heartbeat periods of virtual time, CleanEntry) and two fault-free Fetches by fresh clients. " +
 		"interleaving cases: 2..4 clients × 2..4 operations from {Store(unique version), Fetch, CleanEntry} under random/PCT schedules at filesystem-operation granularity, checked with porcupine against a register model (failed stores may or may not take effect). " +
 		"non-trivial = a fault really landed on an operation / any interleaving case; distinct = case parameters.")
 	r.Assume("synctest bubble + re-stamper (filesystem clock = process clock)", "ext4, one kernel", "a short write returns (n<len, nil) at the afero boundary", "process stop = every later backend operation of that client fails without effect and its context is cancelled",
@@ -584,7 +584,7 @@ func main() {
 				n := dry.storeOps
 				r.ObsMax("operations_in_one_"+fop+"_"+kind, int64(n))
 				for k := 1; k <= n; k++ {
-					for _, f := range []string{"err-before", "err-after", "short-write", "stop"} {
+					for _, f := range []string{"err-before", "enoent-before", "err-after", "short-write", "stop"} {
 						if fop == "fetch" && f == "stop" {
 							continue
 						}
@@ -607,7 +607,7 @@ func main() {
 	r.Obs("fault_cases_enumerated", int64(nf))
 	vrun.Parallel(len(cases), 0, func(i int) { analyse(r, runCase(r, cases[i])) })
 	r.Require("faulted_runs", 1000)
-	r.Require("fault_kinds", 4)
+	r.Require("fault_kinds", 5)
 	r.Require("recovery_fetches_succeeded", 300)
 	r.Require("histories_checked_for_linearizability", int64(ni*9/10))
 	r.Require("successful_fetches_judged", 500)
